@@ -19,7 +19,7 @@ import (
 func init() {
 	register(&Check{
 		ID: "C18", Level: "model_checking", QuickSecs: 170, ThoroughSecs: 1500,
-		Rule:        "Controlled scheduler over real goroutines calling Parse on ONE loaded grammar of one runtime variant package. Scenarios (each forces a collision on something shared): s1 state grammar backtracking over #{} with different inputs; s2 the same with a Cloner value in InitState on one side; s3 Memoize(true) next to default options; s4 left-recursive grammar with state (leader loop clones per iteration); s5 Statistics/Debug on one side; s6 different Entrypoints; s7 a block that panics under Recover(true) while cloned states are held; s8 three concurrent calls; s9 Statistics on both sides with a recovery-side choice reached by throws from two rules. Mode A: scheduling points at every state-pool Get/Put and every code block call, environment choice at Get (any pooled map, or a fresh one) - explored WITHOUT a preemption bound using state-key pruning (key = step counter of every thread + number of pooled maps); the three-call scenario has deviation bound 3 in the quick tier. Mode B: additionally a scheduling point at every tick (entry of every parser method and every loop iteration) - plain DFS with iterative preemption bound 0,1,(2). Every execution starts cold (all package-level variables of the runtime re-initialised). Oracle on every execution: each call's observation (value, errors, block log with state snapshots) equals the observation of the same call run alone; pool discipline monitor silent (no map Put twice, none non-empty from Get); deep dump of the grammar value g identical before and after. A free-running pass of the same scenarios with the real sync.Pool under the Go race detector (sampling, supporting evidence only) must report no race.",
+		Rule:        "Controlled scheduler over real goroutines calling Parse on ONE loaded grammar of one runtime variant package. Scenarios (each forces a collision on something shared): s1 state grammar backtracking over #{} with different inputs; s2 the same with a Cloner value in InitState on one side; s3 Memoize(true) next to default options; s4 left-recursive grammar with state (leader loop clones per iteration); s5 Statistics/Debug on one side; s6 different Entrypoints; s7 a block that panics under Recover(true) while cloned states are held; s8 three concurrent calls; s9 Statistics on both sides with a recovery-side choice reached by throws from two rules; s10/s11 calls through ParseReader on a grammar without actions (values are the matched input bytes), standard and -optimize-parser, a failing call among them. Mode A: scheduling points at every state-pool Get/Put and every code block call, environment choice at Get (any pooled map, or a fresh one) - explored WITHOUT a preemption bound using state-key pruning (key = step counter of every thread + number of pooled maps); the three-call scenario has deviation bound 3 in the quick tier. Mode B: additionally a scheduling point at every tick (entry of every parser method and every loop iteration) - plain DFS with iterative preemption bound 0,1,(2). Every execution starts cold (all package-level variables of the runtime re-initialised). Oracle on every execution: each call's observation (value, errors, block log with state snapshots) equals the observation of the same call run alone; pool discipline monitor silent (no map Put twice, none non-empty from Get); deep dump of the grammar value g identical before and after; the value each finished call returned is canonicalised AGAIN after all calls have ended and must not have changed (no memory shared with another call). A free-running pass of the same scenarios with the real sync.Pool under the Go race detector (sampling, supporting evidence only) must report no race.",
 		Assumptions: []string{"goroutines are serialised at hooked operations; memory-model effects between hooks are only covered by the free-running -race pass", "pruning key soundness: pooled maps are empty and unreferenced while the discipline monitor is silent"},
 		Run:         runC18,
 		Post:        postC18,
@@ -83,6 +83,11 @@ func scenarios() []scenario {
 		{Name: "A", Expr: peg.Seq(peg.Lit("x"), peg.Choice(peg.Lit("!"), peg.Throw("l")))},
 		{Name: "B", Expr: peg.Seq(peg.Lit("y"), peg.Choice(peg.Lit("?"), peg.Throw("l")))}}})
 	out = append(out, scenario{"s9-statistics-recovery-choice", g9, core.Gen{}, script(g9, 0), []call{{"xay!", rtapi.RunOpts{Statistics: true}}, {"ybx!", rtapi.RunOpts{Statistics: true, InitState: true}}}})
+	// s10: both calls through ParseReader, a grammar WITHOUT actions (the returned values are the
+	// matched input bytes themselves), second call with a failing and an optimized-parser variant
+	g10 := prep(&peg.Grammar{Rules: []*peg.Rule{{Name: "S", Expr: peg.Seq(peg.Plus(peg.Choice(peg.Lit("ab"), peg.Cls(false, false, "a-c"))), peg.Not(peg.Any()))}}})
+	out = append(out, scenario{"s10-parsereader-raw-values", g10, core.Gen{}, script(g10, 0), []call{{"abcab", rtapi.RunOpts{UseReader: true}}, {"cba", rtapi.RunOpts{UseReader: true}}}})
+	out = append(out, scenario{"s11-parsereader-optimized-failing", g10, core.Gen{Optimize: true}, script(g10, 0), []call{{"abcab", rtapi.RunOpts{UseReader: true}}, {"cbxa", rtapi.RunOpts{UseReader: true}}, {"ab", rtapi.RunOpts{}}}})
 	out = append(out, scenario{"s8-three-calls", g1, core.Gen{}, script(g1, 0), []call{{"a", rtapi.RunOpts{InitState: true}}, {"b", rtapi.RunOpts{}}, {"", rtapi.RunOpts{InitState: true}}}})
 	return out
 }
@@ -90,6 +95,7 @@ func scenarios() []scenario {
 func obsString(o *rtapi.Obs) string {
 	c := *o
 	c.Ticks, c.Diverged = 0, false
+	c.EvalRepeat, c.EvalCalls = "", 0
 	b, _ := json.Marshal(&c)
 	return string(b)
 }
@@ -161,6 +167,12 @@ func runScenario(c *ShardCtx, sc scenario, mode string, bound int) {
 			}
 		}
 		outcomes[tuple] = true
+		// the values handed out by finished calls are still what they were when the call returned
+		for i := range sc.Calls {
+			if obs[i] != nil && obs[i].Recanon() != obs[i].Val {
+				diffs = append(diffs, fmt.Sprintf("the value returned by call %d (input %q) changed after the call had returned: %s, was %s (it shares memory with another call)", i, sc.Calls[i].In, obs[i].Recanon(), obs[i].Val))
+			}
+		}
 		for _, v := range vsync.Violations {
 			diffs = append(diffs, "state pool discipline: "+v)
 		}
